@@ -15,6 +15,19 @@ pub enum Op {
     Call(String),
 }
 
+/// compact rendering for log lines (the replay file holds the full list)
+pub fn show_ops(ops: &[Op]) -> String {
+    let one = |o: &Op| match o {
+        Op::U(x) => format!("{}", x),
+        Op::Call(c) => c.clone(),
+    };
+    if ops.len() <= 24 {
+        format!("[{}]", ops.iter().map(one).collect::<Vec<_>>().join(", "))
+    } else {
+        format!("[{}, ... {} more ..., {}]", ops[..10].iter().map(one).collect::<Vec<_>>().join(", "), ops.len() - 14, ops[ops.len() - 4..].iter().map(one).collect::<Vec<_>>().join(", "))
+    }
+}
+
 pub fn ops_of(hist: &[f64]) -> Vec<Op> {
     hist.iter().map(|x| Op::U(*x)).collect()
 }
@@ -273,14 +286,14 @@ pub fn finish(property: &str, tier: &str, seed: u64, wall_s: f64, mut out: Check
                 }
             }
             println!(
-                "KNOWN-FINDING: property={} {} clause={} {} ({} matching violation(s) this run; e.g. {} on {:?}; witness={})",
+                "KNOWN-FINDING: property={} {} clause={} {} ({} matching violation(s) this run; e.g. {} on {}; witness={})",
                 property,
                 k.kind,
                 k.clause,
                 k.what,
                 cnt,
                 v.view,
-                v.ops,
+                show_ops(&v.ops),
                 k.witness.clone().unwrap_or_default()
             );
         }
@@ -302,14 +315,14 @@ pub fn finish(property: &str, tier: &str, seed: u64, wall_s: f64, mut out: Check
         // replay twice and require identical observations before reporting
         let det = crate::replay::deterministic(v);
         println!(
-            "VIOLATION property={} replay={} view={} clause={} scalar={} profile={} ops={:?} :: {}{}",
+            "VIOLATION property={} replay={} view={} clause={} scalar={} profile={} ops={} :: {}{}",
             property,
             path.display(),
             v.view,
             v.clause,
             v.scalar,
             v.profile,
-            v.ops,
+            show_ops(&v.ops),
             v.detail,
             if det { "" } else { " [NON-DETERMINISTIC REPLAY]" }
         );
